@@ -12,12 +12,9 @@ import vlib
 
 LEVEL = "model_checking"
 
-FAMILIES = ["dir", "reuse", "esc", "echo"]
-# (MaxUnits, MaxFlags, MaxArgs, Rich, workers) per family and tier
-BOUNDS = {
-    "quick": {"dir": (1, 1, 1, "FALSE"), "reuse": (2, 0, 2, "FALSE"), "esc": (3, 0, 0, "FALSE"), "echo": (3, 0, 0, "FALSE")},
-    "thorough": {"dir": (1, 2, 1, "TRUE"), "reuse": (3, 0, 3, "TRUE"), "esc": (4, 0, 0, "TRUE"), "echo": (3, 0, 0, "TRUE")},
-}
+# bounds per tier are in spec/ShFormat.<tier>.cfg (families dir, reuse, esc, echo: exhaustive BFS) and
+# spec/ShFormat.mix.<tier>.cfg (family mix: run with -simulate)
+SIM = {"quick": (20, 12), "thorough": (100, 16)}     # behaviours, depth (every successor of every visited state is emitted)
 
 
 def text(t):
@@ -37,23 +34,27 @@ def show(case):
     return case["cmd"] + " " + " ".join(json.dumps(vlib.unchars(w)) for w in case["words"])
 
 
-def run_tlc_family(ck, fam, results, errors):
+def run_tlc_part(ck, part, results, errors):
     try:
-        b = BOUNDS[ck.tier][fam]
-        cfgname = "ShFormat.%s.%s.cfg" % (fam, ck.tier)
-        results[fam] = vlib.run_tlc("ShFormat", cfgname, workers=4 if ck.tier == "quick" else 8, timeout=1500)
+        if part == "mix":
+            nsim, depth = SIM[ck.tier]
+            results[part] = vlib.run_tlc("ShFormat", "ShFormat.mix.%s.cfg" % ck.tier, simulate=nsim, depth=depth, seed=ck.seed, timeout=1500)
+        else:
+            results[part] = vlib.run_tlc("ShFormat", "ShFormat.%s.cfg" % ck.tier, workers=8 if ck.tier == "quick" else 16, timeout=1500)
     except Exception as e:  # reported by the caller
-        errors[fam] = e
+        errors[part] = e
 
 
-def collect(t, cases, seen, fam):
+def collect(ck, t, cases, seen):
     for v in t.vecs.get("VEC", []):
         for c in v["cases"]:
             key = cmdline(c)
             if key in seen:
                 continue
             seen.add(key)
-            c["fam"] = fam
+            c["fam"] = v["fam"]
+            per = ck.notes.setdefault("cases_per_family", {})
+            per[v["fam"]] = per.get(v["fam"], 0) + 1
             cases.append(c)
 
 
@@ -111,7 +112,7 @@ BUILTIN_LEVEL_ONLY = {"InvalidNumberStatusZero", "OutputBeforeErrorLost"}
 
 def evaluate(ck, cases, h):
     cmds = [cmdline(c) for c in cases]
-    ires = vlib.run_harness(h, "interp", [{"src": s} for s in cmds], shards=16)
+    ires = vlib.run_harness(h, "sh", [{"src": s} for s in cmds], shards=4)
     bres = vlib.run_shell_evals(cmds, locale="C.UTF-8")
     pidx = [i for i, c in enumerate(cases) if c["cmd"] == "printf" and "pass" in c]
     fres = vlib.run_harness(h, "format", [{"fmt": cases[i]["words"][0], "args": cases[i]["words"][1:]} for i in pidx], shards=8)
@@ -130,7 +131,7 @@ def evaluate(ck, cases, h):
 def run(ck):
     h = vlib.build_harness("formatquote")
     results, errors = {}, {}
-    ths = [threading.Thread(target=run_tlc_family, args=(ck, f, results, errors)) for f in FAMILIES]
+    ths = [threading.Thread(target=run_tlc_part, args=(ck, p, results, errors)) for p in ("bfs", "mix")]
     for t in ths:
         t.start()
     for t in ths:
@@ -138,23 +139,12 @@ def run(ck):
     if errors:
         raise vlib.Inconclusive("; ".join("%s: %s" % (f, e) for f, e in errors.items()))
     cases, seen = [], set()
-    for fam in FAMILIES:
-        t = results[fam]
+    for part in ("bfs", "mix"):
+        t = results[part]
         ck.add_tlc(t)
         if not t.ok:
-            raise vlib.Inconclusive("ShFormat(%s): a law of the contract fails in the model:\n%s" % (fam, t.violation or t.raw_tail))
-        n0 = len(cases)
-        collect(t, cases, seen, fam)
-        ck.notes.setdefault("cases_per_family", {})[fam] = len(cases) - n0
-    # seeded random deeper inputs from the mixed builder
-    nsim, depth = (30, 12) if ck.tier == "quick" else (1500, 16)
-    t = vlib.run_tlc("ShFormat", "ShFormat.mix.%s.cfg" % ck.tier, simulate=nsim, depth=depth, seed=ck.seed, timeout=1500)
-    ck.add_tlc(t)
-    if not t.ok:
-        raise vlib.Inconclusive("ShFormat(mix): a law of the contract fails in the model:\n%s" % (t.violation or t.raw_tail))
-    n0 = len(cases)
-    collect(t, cases, seen, "mix")
-    ck.notes["cases_per_family"]["mix"] = len(cases) - n0
+            raise vlib.Inconclusive("ShFormat(%s): a law of the contract fails in the model:\n%s" % (part, t.violation or t.raw_tail))
+        collect(ck, t, cases, seen)
     ck.cov["exhaustive"] = True
     ck.cov["rule"] = ("every state of the ShFormat builders (families dir/reuse/esc/echo exhaustively by BFS to the tier's bounds, "
                       "family mix by seeded simulation); one evaluation = one command line run by the interpreter (+ one call of "
